@@ -328,13 +328,13 @@ class BitArray(Bits):
         out of range.
 
         """
-        if count == 0:
-            return 0
         old = self._create_from_bitstype(old)
         new = self._create_from_bitstype(new)
         if len(old) == 0:
             raise ValueError("Empty bitstring cannot be replaced.")
         start, end = self._validate_slice(start, end)
+        if count == 0:
+            return 0
 
         if new is self:
             # Prevent self assignment woes
